@@ -366,6 +366,31 @@ func c09Facts(g *genCtx) string {
 	b.WriteString("/-- decode calls whose target is the address of a pointer-typed variable (`null` leaves it nil) -/\ndef decodeSites : List C09.DecodeSite := [\n  " + strings.Join(ss, ",\n  ") + "]\n\n")
 	g.facts["C09.decodeSites"] = sites
 
+	rets := c09VerifierReturns(g)
+	var rs []string
+	for _, r := range rets {
+		rs = append(rs, fmt.Sprintf("{ fn := %s, value := %s, isTarget := %s, err := %s, errType := %s, check := %s, cond := %s }",
+			leanStr(r.Fn), leanStr(r.Value), leanBool(r.IsTarget), leanStr(r.Err), leanStr(r.ErrType), leanStr(r.Check), leanStr(r.Cond)))
+	}
+	b.WriteString("/-- the return statements of the functions that parse a token into a named result (the generic Verify* functions) -/\ndef verifierReturns : List C09.VerifierReturn := [\n  " + strings.Join(rs, ",\n  ") + "]\n\n")
+	g.facts["C09.verifierReturns"] = rets
+	callers := c09TolerantCallers(g)
+	var cs []string
+	for _, c := range callers {
+		cs = append(cs, fmt.Sprintf("{ fn := %s, callee := %s, target := %s, errType := %s, guarded := %s, derefs := %d, passes := %d }",
+			leanStr(c.Fn), leanStr(c.Callee), leanStr(c.Target), leanStr(c.ErrType), leanBool(c.Guarded), c.Derefs, c.Passes))
+	}
+	b.WriteString("/-- callers that go on to use the value although the callee returned an error of the tolerated type -/\ndef tolerantCallers : List C09.TolerantCaller := [\n  " + strings.Join(cs, ",\n  ") + "]\n\n")
+	g.facts["C09.tolerantCallers"] = callers
+
+	ca := c09ClosureAssigned(g)
+	var cas []string
+	for _, u := range ca {
+		cas = append(cas, "("+leanStr(u[0])+", "+leanStr(u[1])+")")
+	}
+	b.WriteString("/-- locals declared without a value, assigned only inside function literals, used outside of them -/\ndef closureAssigned : List (String × String) := [" + strings.Join(cas, ", ") + "]\n\n")
+	g.facts["C09.closureAssigned"] = ca
+
 	b.WriteString("/-! statement skeletons of the hand-modelled functions (pins) -/\n")
 	for _, p := range c09Pins {
 		b.WriteString(skeletonDef(g, p[0], p[1], p[2]))
